@@ -222,6 +222,36 @@ def check_linear(rng, thorough, stats, viol):
                             break
                 if len(viol) >= 3:
                     return
+            # an explicit target mask must cover everything outside the hull: a partial one is refused (FinamDataError),
+            # a complete one is kept as it is
+            outside = decided & ~inside
+            if outside.sum() >= 2:
+                full = (~inside | ~decided).reshape(tshape)          # masks every location that is (or may be) outside
+                part = full.copy()
+                first = np.flatnonzero(outside)[0]
+                part.reshape(-1)[first] = False                      # leaves one outside location unmasked
+                for name, om, must_refuse in (("complete", full, False), ("partial", part, True)):
+                    tag = f"linear with explicit {name} target mask: source {sn} mask={smn}; target {tn}"
+                    stats["runs"] += 1
+                    try:
+                        got = send(fm.adapters.RegridLinear(fill_with_nearest=False, out_mask=om), sg, tg, data, smask, fm.Mask.FLEX)
+                        refused = False
+                    except (fm.FinamDataError, fm.FinamMetaDataError):
+                        refused = True
+                    except Exception as e:  # noqa
+                        viol.append(f"{type(e).__name__}: {str(e)[:120]} [{tag}]")
+                        continue
+                    if refused != must_refuse:
+                        viol.append(f"target mask that leaves an outside-hull location unmasked was {'refused' if refused else 'accepted'} "
+                                    f"(expected {'refusal' if must_refuse else 'acceptance'}) [{tag}]")
+                    elif not refused:
+                        gm = np.ma.getmaskarray(got)
+                        if not np.array_equal(gm, om):
+                            viol.append(f"explicit target mask not kept [{tag}]")
+                        elif np.isnan(np.ma.getdata(got)[~gm]).any():
+                            viol.append(f"NaN delivered at an unmasked target location [{tag}]")
+                if len(viol) >= 3:
+                    return
 
 
 def main():
